@@ -511,8 +511,8 @@ def run(ctx, only_cases=None):
         cases += witness_cases(fixed)
         cases += nodes_witnesses()
         cases += nodes_prefix_cases(vlib.run_harness(binary, [{"mode": "tables"}])[0])
-        cases += [nodes_case(rng, cats, fixed["setnx"]) for _ in range(4000 if thorough else 500)]
-        cases += alias_cases(rng, cats, 3000 if thorough else 300)
+        cases += [nodes_case(rng, cats, fixed["setnx"]) for _ in range(4000 if thorough else 350)]
+        cases += alias_cases(rng, cats, 3000 if thorough else 200)
         g = Gen(rng, cats, fixed["setnx"])
         cases += [g.case() for _ in range(12000 if thorough else 1200)]
         ex = exhaustive_cases(cats, locked=bool(fixed["wb"]))
